@@ -63,6 +63,16 @@ def fam_C02(seed, n):
                 sc.add("h destroy")
             sc.add("end")
             minted += 1
+        if cfg["maxCache"] != 0 and r.random() < 0.3:
+            # the cache is switched off at runtime while sessions are still cached; a session that is ended afterwards
+            # must be gone from memory too, whatever id of it is presented later
+            sc.add("cfg maxCache 0")
+            victim = r.randrange(npop)
+            req(sc, victim)
+            sc.add("h destroy")
+            sc.add("end")
+            req(sc, r.randrange(npop, len(CLIENTS)), spec="val:g%d" % r.randrange(max(1, minted)), create=0)
+            sc.add("end")
         for _ in range(r.randint(4, 14)):
             x = r.random()
             c = r.randrange(npop, len(CLIENTS))
@@ -162,6 +172,22 @@ def fam_C03(seed, n):
             sc.add("h set k0", "s" + hx("v%d" % c))
             sc.add("end")
         seu = 5 if se_units in (MAX, 0) else se_units
+        if se_units not in (MAX, 0, 1) and r.random() < 0.2:
+            # quiet keep-alive: one or two clients come back at intervals just below SessionExpiry but ABOVE SessionCacheExpiry,
+            # nothing else touches the cache in between (no purge, no other session, no write): their access times live in
+            # memory only and must not get lost there
+            sc.lines = [l for l in sc.lines if not l.startswith(("cfg cacheExpiry", "cfg maxCache"))]
+            sc.add("cfg cacheExpiry", r.choice([1, max(1, seu - 2)]) * U)
+            sc.add("cfg maxCache", r.choice([-1, 3, 8]))
+            for _ in range(r.randint(3, 7)):
+                sc.add("wait", (seu - 1) * U)
+                for c in range(ns):
+                    req(sc, c, create=0)
+                    if r.random() < 0.2:
+                        sc.add("h lastaccess")
+                    sc.add("end")
+            out.append(("C03-%d" % i, sc.text()))
+            continue
         if se_units not in (MAX, 0, 1) and r.random() < 0.45:
             # keep-alive pattern: accesses at intervals just below SessionExpiry, far beyond SessionExpiry since creation,
             # with the session leaving the cache in between (purge, eviction by other sessions, idle sweep)
@@ -269,11 +295,17 @@ def fam_C05(seed, n):
         SALT[0] = ".%d" % r.randint(0, 9999)
         req(sc, 0)
         sc.add("h set k0 s" + hx("live"))
-        k = r.randint(1, 5)
+        k = r.randint(1, 5) if r.random() < 0.85 else r.randint(6, 14)   # sometimes a long chain inside one grace period
         for _ in range(k):
             sc.add("h regen")
         sc.add("end")
         ids = k + 1
+        if k > 5:
+            # the oldest ids of a long chain still lead to the live session
+            for j in sorted(r.sample(range(k), 3)):
+                req(sc, r.choice([1, 2]), spec="val:g%d" % j, create=0)
+                sc.add("h get k0")
+                sc.add("end")
         if ide_u != MAX and gr_u >= 1 and r.random() < 0.4:
             # an ID that is long overdue (the client was away for more than SessionIDExpiry + grace) is replaced by the
             # request that comes back, and a parallel request still presents the old ID inside ITS grace period
@@ -480,8 +512,13 @@ def fam_C08(seed, n):
             if r.random() < 0.7:
                 sc.add("h login", r.choice(users), r.choice([0, 0, 1]))
             sc.add("end")
+        switched = False
         for _ in range(r.randint(3, 10)):
             x = r.random()
+            if not switched and cfg["maxCache"] != 0 and r.random() < 0.12:
+                # the cache is switched off (or made tiny) at runtime while logged-in sessions are cached
+                sc.add("cfg maxCache", r.choice([0, 0, 1]))
+                switched = True
             if x < 0.4:
                 req(sc, r.randrange(ns))
                 y = r.random()
@@ -656,6 +693,9 @@ def fam_C18(seed, n):
     for i in range(n):
         r = rnd_for(seed, "C18", i)
         out.append(("C18-%d" % i, gen.general(r, nsteps=r.choice([15, 25]), features=("cookie", "forged"))))
+    # redirect cookies along reference chains of every length (the C05 family has chains of up to 14 id changes in one grace period)
+    for name, text in fam_C05(seed + 3, max(4, n // 4)):
+        out.append((name.replace("C05-", "C18-chain-"), text))
     return out
 
 
